@@ -91,6 +91,8 @@ SPEC_NAMES = {
     "clock",
     "call_time",
     "is_method_of",
+    "group_has",
+    "count_calls",
 }
 
 
@@ -748,6 +750,20 @@ class SpecMixin:
                 idx = i
         return idx
 
+    def sp_count_calls(self, e, fr):
+        """count_calls('Class.method'): number of recorded calls with that name; not defined over a
+        trace with a loop gap before the first such call position (a loop could hide more)"""
+        name = self.ev(e.args[0], fr)
+        n = 0
+        for x in self.traces.get("calls", []):
+            if isinstance(x, TraceGap):
+                if n:
+                    raise ContractError("count_calls: a loop ran after a counted call")
+                continue
+            if isinstance(x, tuple) and isinstance(x[0], str) and x[0].endswith(name):
+                n += 1
+        return n
+
     def sp_call_args(self, e, fr):
         """call_args('Class.method'): argument tuple (self first) of the first such call"""
         name = self.ev(e.args[0], fr)
@@ -777,7 +793,10 @@ class SpecMixin:
         from .sym import SymReal
 
         name = self.ev(e.args[0], fr)
-        for (n, t) in self.traces.get("call_times", []):
+        for x in self.traces.get("call_times", []):
+            if isinstance(x, TraceGap):
+                continue
+            n, t = x
             if isinstance(n, str) and n.endswith(name):
                 return SymReal(t)
         from .interp import BOTTOM
@@ -797,6 +816,16 @@ class SpecMixin:
             return False
         same = x.obj is obj or (isinstance(x.obj, SObj) and isinstance(obj, SObj) and x.obj.oid == obj.oid)
         return bool(same and x.name == name)
+
+    def sp_group_has(self, e, fr):
+        """group_has(exc, (T1, T2)): the exception group contains an exception of one of the
+        classes (the same flag the code's split()/subgroup() on that group is answered from)"""
+        from . import models_rt as rt
+
+        exc = self.ev(e.args[0], fr)
+        types = self.ev(e.args[1], fr)
+        m, _r = rt.group_flags(self, exc, types)
+        return m
 
     def _opt(self, e, fr):
         ns = self.ev(e.args[0], fr)
